@@ -25,17 +25,17 @@ STATIC = {
                            "C01r_reader_recovers (the library's own SMILES parser reads the output back as exactly the graph the decoder built) needs: <= 99 ring bonds and no ring bond joining two '.'-fragments (selfies' parser keeps ring labels per fragment: C01r_cross_fragment_ring_rejected; such output is legal SMILES and is judged by the independent reader of the harness)",
                            "external sanitizer clause: validated with RDKit, cannot be a theorem",
                            "'decoder returns' fails for nesting deeper than the recursion budget (residual finding F2r): the C01 theorems speak about every RETURNED result"]},
-    "C02": {"use_props": ["C16"], "gen": ["GenEq", "GenEq2", "GenEq4"], "extra_modules": ["SelfiesVerif.Spec.DerivationExamples"],
-            "not_proved": ["C02_decoder_eq at the SMILES-string level (no spec writer); the graph-level refinement C02_graph_eq_general is proved for every result other than RecursionError (finding F2)"]},
+    "C02": {"use_props": ["C16", "C02s"], "gen": ["GenEq", "GenEq2", "GenEq4"], "extra_modules": ["SelfiesVerif.Spec.DerivationExamples"],
+            "not_proved": ["C02s_decoder_eq_spec_string / C02s_api_outcomes (Props/C02s.lean): the returned STRING is the structural rendering of the molecule of Spec/Derivation.lean, and rejection coincides with the grammar's, unless the body exhausts the stack (the spec has no recursion limit; since the repair of F2 the API function then raises DecoderError: C02s_api_reject_iff)"]},
     "C03": {"use_props": ["C03p", "C01w", "C03s", "C05e"], "not_proved": ["C03s_roundtrip_parsed / C03s_bonds_iff (Props/C03s.lean) state the round trip on the OUTPUT STRING: the library's parser reads decoder(encoder(s)) back with the same atoms and the same bonds as the prepared graph of s; hypotheses left: every ring span / branch length < 16^3, nesting depth < recursion budget, input length <= 10^4300, <= 99 ring bonds",
                                                    "aromatic inputs: C05e_aromatic_end_to_end composes parser, kekulization and round trip; 'the matching returned is perfect' is derived on bipartite delocalisation subgraphs and an explicit hypothesis otherwise (finding F9)"]},
-    "C04": {"use_props": ["C03", "C10r"], "not_proved": ["C04_end_to_end (Props/C10r.lean) is the string-level statement; hypotheses as C03p_roundtrip_strings plus <= 99 rings"]},
+    "C04": {"use_props": ["C03", "C10r", "C04h"], "not_proved": ["C04_handedness_preserved / C04_marks_preserved (Props/C04h.lean) state the property in semantic form on the two parsed graphs (handedness = tag xor parity of the neighbour order); hypotheses as C03p_roundtrip_strings plus <= 99 rings",
+                                                  "for aromatic input a '/' or '\\' mark is shown preserved on bonds that are single after kekulization (the kekulize lemmas do not exclude that phase 2 raises an explicitly written single bond between two aromatic atoms: on non-bipartite systems the matching is not sound, finding F9); for input without aromatic atoms the bond records are literally equal (C04_marks_preserved_nonaromatic)"]},
     "C05": {"use_props": ["C05c", "C03p", "C05e"], "not_proved": ["completeness is proved for BIPARTITE delocalisation subgraphs (all rings even: C05_bipartite_complete, C05_bipartite_decides, C05_kekulize_complete_bipartite); for non-bipartite systems it is false in general (finding F9) and decided by bounded search, as is atom-order independence",
                            "unconditional soundness of find_perfect_matching is FALSE (C05_soundness_false, finding F9); proved: sound on bipartite graphs, sound whenever every augmenting path found is simple, kekulize sound given a perfect matching",
                            ]},
-    "C06": {"gen": ["GenEq3"]}, "C07": {"use_props": ["C01", "C08"], "gen": ["GenEq3"],
-                       "not_proved": ["C07_no_error: a string over the alphabet nested deeper than the recursion budget is rejected (residual finding F2r; C08_deep_nesting_rejected); proved without exception below the budget: C07_no_error_shallow",
-                                      "C07_atom_symbols_valid holds only for keys whose charge has at most 4300 digits (finding F10; proved exact: C07_atom_symbol_accepted_iff)"]},
+    "C06": {"gen": ["GenEq3"]}, "C07": {"use_props": ["C01", "C08", "C07f"], "gen": ["GenEq3"],
+                       "not_proved": ["C07_no_error: a string over the alphabet nested deeper than the recursion budget is rejected (residual finding F2r; C08_deep_nesting_rejected); proved without exception below the budget: C07_no_error_shallow"]},
     "C08": {"use_props": ["C18", "C08t"], "not_proved": ["C08_total (Props/C08t.lean) is the full-strength statement for the API function as repaired (F2: try/except RecursionError -> DecoderError, model Model/Api.lean decoderApi); the recursion threshold of the model (limit - 40) is approximate for the real interpreter, the band near it is not compared"]},
     "C09": {"use_props": ["C06", "C08t"], "not_proved": ["C09_total (Props/C08t.lean) is the full-strength statement for the repaired API function (encoderApi); it needs a legal choice tape (TapeOK: each entry is a member of the set it is popped from); the real set.pop() always is"]},
     "C10": {"use_props": ["C10r", "C16", "C03p", "C14e"], "gen": ["GenEq2"], "not_proved": ["C10_reencode_stable is proved under: ring spans / branch lengths < 16^3, nesting depth < recursion budget, input length <= 10^4300, <= 99 ring bonds",
